@@ -2477,3 +2477,347 @@ Proof.
   cbn. unfold fits, level, depth_of, ex_head, ex_txt, hd_of, is_elem, DOC_LEVEL, PAR_LEVEL, CHAR_LEVEL; cbn.
   repeat split; auto; try discriminate; try (intros; discriminate); try (intros; lia); try lia.
 Qed.
+
+(* ================================================================================================ *)
+(* Well-nested input with sectioning: parsed into its syntax tree, sections grouped by Macro.paragraphs *)
+(* ================================================================================================ *)
+
+Inductive sast :=
+| SText (h : head) (s : list Z)
+| SLeaf (h : head) (pre : list tree)
+| SEnv (h he : head) (body : list sast)
+| SSec (h : head) (body : list sast).
+
+Lemma sast_ind2 (P : sast -> Prop) :
+  (forall h s, P (SText h s)) -> (forall h pre, P (SLeaf h pre)) ->
+  (forall h he body, Forall P body -> P (SEnv h he body)) ->
+  (forall h body, Forall P body -> P (SSec h body)) -> forall a, P a.
+Proof.
+  intros HT HL HE HS. fix IH 1. intros [h s|h pre|h he body|h body]; [apply HT|apply HL|apply HE|apply HS];
+    induction body as [|b body IHb]; constructor; try apply IH; exact IHb.
+Qed.
+
+Fixpoint sprint (a : sast) : list tree :=
+  match a with
+  | SText h s => [Text h s]
+  | SLeaf h pre => [Node h pre]
+  | SEnv h he body => Node h [] :: flat_map sprint body ++ [Node he []]
+  | SSec h body => Node h [] :: flat_map sprint body
+  end.
+
+(* the stream as the functions see it: push-back stack in front of the expander output; mathematics flag off *)
+Definition Rd (s : st) (l : list tree) (log ev : list (Z * tree)) : Prop :=
+  s_buf s ++ s_rest s = l /\ s_mm s = false /\ s_log s = log /\ s_ev s = ev.
+
+Definition mm0 (t : tree) : Prop := h_mm (hd_of t) = false.
+
+Lemma Rd_next s t l log ev : Rd s (t :: l) log ev -> mm0 t -> exists s1, next s = Some (t, s1) /\ Rd s1 l log ev.
+Proof.
+  intros (Hi & Hm & Hl & He) Ht. destruct s as [b r m lg e]. simpl in *. subst. unfold next; simpl.
+  destruct b as [|x b]; simpl in Hi.
+  - subst r. eexists. split; [reflexivity|]. repeat split. exact Ht.
+  - inversion Hi; subst. eexists. split; [reflexivity|]. repeat split.
+Qed.
+
+Lemma Rd_nil s log ev : Rd s [] log ev -> next s = None.
+Proof.
+  intros (Hi & _). destruct s as [b r m lg e]. simpl in *. apply app_eq_nil in Hi. destruct Hi; subst. reflexivity.
+Qed.
+
+Lemma Rd_push s t l log ev : Rd s l log ev -> Rd (push t s) (t :: l) log ev.
+Proof. intros (Hi & Hm & Hl & He). repeat split; simpl; try assumption. f_equal. exact Hi. Qed.
+
+Lemma Rd_logd s k t l log ev : Rd s l log ev -> Rd (logd k t s) l ((k, t) :: log) ev.
+Proof. intros (Hi & Hm & Hl & He). repeat split; simpl; try assumption. f_equal. exact Hl. Qed.
+
+Definition logok (log : list (Z * tree)) : Prop := Forall (fun e => fst e = R_END \/ fst e = R_EMPTYPAR) log.
+
+Lemma logok_logds ts s : logok (s_log s) -> logok (s_log (logds R_EMPTYPAR ts s)).
+Proof.
+  unfold logds. revert s. induction ts as [|t ts IH]; intros s H; simpl; [exact H|].
+  apply IH. simpl. constructor; [right; reflexivity|exact H].
+Qed.
+
+Section NF2.
+  Context (subs : list (list Z * list Z)) (pn : Z).
+
+  Fixpoint sden (a : sast) : tree :=
+    match a with
+    | SText h s => Text h s
+    | SLeaf h pre => Node h pre
+    | SEnv h he body => Node h (map sden body)
+    | SSec h body => Node h (fst (paragraphs subs pn false true h (map sden body)))
+    end.
+
+  Lemma sprint_head a : exists t0 r0, sprint a = t0 :: r0 /\ hd_of t0 = hd_of (sden a) /\ is_elem t0 = is_elem (sden a) /\
+                                        level t0 = level (sden a) /\ depth t0 = depth (sden a).
+  Proof. destruct a as [h s|h pre|h he body|h body]; simpl; eexists; eexists; repeat split. Qed.
+
+  Definition follow (a : sast) (L : option Z) : Prop :=
+    match a, L with SSec h _, Some l => l <= h_level h | _, _ => True end.
+
+  Fixpoint chain (l : list sast) (B : option Z) : Prop :=
+    match l with
+    | [] => True
+    | b :: l' => match l' with [] => follow b B | b' :: _ => follow b (Some (level (sden b'))) end /\ chain l' B
+    end.
+
+  Section Oks2.
+    Context (okf : sast -> Prop) (fit : tree -> Prop).
+    Fixpoint oks2 (l : list sast) : Prop :=
+      match l with [] => True | b :: l' => okf b /\ fit (sden b) /\ oks2 l' end.
+  End Oks2.
+
+  Fixpoint sast_ok (a : sast) : Prop :=
+    match a with
+    | SText h _ => h_mm h = false
+    | SLeaf h _ => (h_kind h = KLeaf \/ h_kind h = KText) /\ h_mm h = false
+    | SEnv h he body =>
+        h_kind h = KEnv /\ h_mode h <> 2 /\ h_force h = false /\ h_mm h = false /\ h_mm he = false /\
+        h_mode he = 2 /\ h_typ he = h_typ h /\ h_level he <> PAR_LEVEL /\ h_level h <= h_level he /\
+        (fix go (l : list sast) : Prop := match l with [] => True | b :: l' => sast_ok b /\ fits h (sden b) /\ go l' end) body /\
+        chain body (Some (h_level he))
+    | SSec h body =>
+        h_kind h = KSec /\ h_mm h = false /\
+        (fix go (l : list sast) : Prop := match l with [] => True | b :: l' => sast_ok b /\ h_level h < level (sden b) /\ go l' end) body /\
+        chain body (Some (h_level h))
+    end.
+
+  Lemma sok_mm : forall a, sast_ok a -> Forall mm0 (sprint a).
+  Proof.
+    induction a as [h s|h pre|h he body IH|h body IH] using sast_ind2; simpl; intro H.
+    - constructor; [exact H|constructor].
+    - constructor; [apply H|constructor].
+    - destruct H as (_ & _ & _ & Hm & Hme & _ & _ & _ & _ & Hb & _). constructor; [exact Hm|].
+      apply Forall_app. split; [|constructor; [exact Hme|constructor]].
+      induction IH as [|b body Hb1 _ IHb]; simpl; [constructor|]. destruct Hb as (H1 & _ & H3).
+      apply Forall_app. split; [apply Hb1; exact H1|apply IHb; exact H3].
+    - destruct H as (_ & Hm & Hb & _). constructor; [exact Hm|].
+      induction IH as [|b body Hb1 _ IHb]; simpl; [constructor|]. destruct Hb as (H1 & _ & H3).
+      apply Forall_app. split; [apply Hb1; exact H1|apply IHb; exact H3].
+  Qed.
+
+  (* what must stand behind [a] in the stream: behind a section, nothing or an item of a level not above its own *)
+  Definition behind (a : sast) (r : list tree) : Prop :=
+    match a, r with SSec h _, t :: _ => level t <= h_level h | _, _ => True end.
+
+  Definition Dst2 (a : sast) : Prop :=
+    sast_ok a -> forall f s1 r log ev, (2 * length (sprint a) <= f)%nat -> logok log -> Forall mm0 r -> behind a r ->
+    match sprint a with
+    | [] => True
+    | t0 :: r0 =>
+        Rd s1 (r0 ++ r) log ev ->
+        exists s' log',
+          (if is_elem t0 then digest subs pn f t0 s1 else Done (t0, s1)) = Done (sden a, s') /\ Rd s' r log' ev /\ logok log'
+    end.
+
+  Lemma sec_loop_S f h ch s :
+    sec_loop subs pn (S f) h ch s =
+    match next s with
+    | None => Done (ch, s)
+    | Some (t, s1) =>
+        if level t <=? h_level h then Done (ch, push t s1)
+        else match (if is_elem t then digest subs pn f t s1 else Done (t, s1)) with
+             | Done (t', s2) => sec_loop subs pn f h (ch ++ [t']) s2
+             | OutOfFuel => OutOfFuel
+             | Crashed k => Crashed k
+             end
+    end.
+  Proof. reflexivity. Qed.
+
+  Lemma digest_S_sec f h ch s : h_kind h = KSec ->
+    digest subs pn (S f) (Node h ch) s =
+    match sec_loop subs pn f h ch s with
+    | Done (ch', s1) => Done (do_paragraphs subs pn true h ch' s1)
+    | OutOfFuel => OutOfFuel
+    | Crashed k => Crashed k
+    end.
+  Proof. intro H. simpl. rewrite H. reflexivity. Qed.
+
+  (* the level of what stands first in  (prints l ++ tail) *)
+  Lemma behind_chain b body tail B :
+    (match body with [] => follow b B | b' :: _ => follow b (Some (level (sden b'))) end) ->
+    (match B with Some l => match tail with [] => True | t :: _ => level t <= l end | None => tail = [] end) ->
+    behind b (flat_map sprint body ++ tail).
+  Proof.
+    intros Hf Ht. destruct b as [h s|h pre|h he bb|h bb]; simpl; try exact I.
+    destruct body as [|b' body]; simpl.
+    - destruct tail as [|t tail]; [exact I|]. destruct B as [l|]; [simpl in Hf; lia|discriminate Ht].
+    - destruct (sprint_head b') as (t0 & r0 & Ep & _ & _ & Elv & _). rewrite Ep. simpl. rewrite Elv. exact Hf.
+  Qed.
+
+  Lemma oks2_mm fit : forall l, oks2 sast_ok fit l -> Forall mm0 (flat_map sprint l).
+  Proof.
+    induction l as [|b l IH]; simpl; [constructor|]. intros (H1 & _ & H3).
+    apply Forall_app. split; [apply sok_mm; exact H1|apply IH; exact H3].
+  Qed.
+
+  Lemma Rd_logds ts l ev : forall s, s_buf s ++ s_rest s = l -> s_mm s = false -> s_ev s = ev ->
+    Rd (logds R_EMPTYPAR ts s) l (s_log (logds R_EMPTYPAR ts s)) ev.
+  Proof.
+    unfold logds. induction ts as [|t ts IH]; intros s Hi Hm He; simpl; [repeat split; assumption|].
+    apply IH; simpl; assumption.
+  Qed.
+
+  Lemma nf2_env_loop h he : h_mode he = 2 -> h_typ he = h_typ h -> h_level he <> PAR_LEVEL -> h_level h <= h_level he ->
+    h_mm he = false ->
+    forall body, Forall Dst2 body -> oks2 sast_ok (fits h) body -> chain body (Some (h_level he)) ->
+    forall f ch0 s r log ev, (2 * length (flat_map sprint body) + 1 <= f)%nat -> logok log -> Forall mm0 r ->
+    Rd s (flat_map sprint body ++ Node he [] :: r) log ev ->
+    exists s' log', env_loop subs pn f h ch0 false s = Done (ch0 ++ map sden body, false, s') /\ Rd s' r log' ev /\ logok log'.
+  Proof.
+    intros Hm Ht Hlp Hle Hmm. induction body as [|b body IHb]; intros HD Hok Hch f ch0 s r log ev Hf Hlog Hr HRd.
+    - destruct f as [|f]; [simpl in Hf; lia|]. cbn [flat_map app map] in *.
+      destruct (Rd_next _ _ _ _ _ HRd Hmm) as (s1 & Hn & HRd1). rewrite env_loop_S, Hn.
+      assert (E1 : (level (Node he []) =? PAR_LEVEL) = false) by (apply Z.eqb_neq; exact Hlp).
+      assert (E2 : (level (Node he []) <? h_level h) = false) by (apply Z.ltb_ge; exact Hle).
+      rewrite E1, E2. cbn [is_elem hd_of andb]. rewrite Hm, Ht, !Z.eqb_refl. cbn [andb].
+      eexists. eexists. split; [rewrite app_nil_r; reflexivity|]. split; [apply Rd_logd; exact HRd1|].
+      constructor; [left; reflexivity|exact Hlog].
+    - inversion HD as [|? ? HDb HDbody]; subst. destruct Hok as (Hokb & Hfit & Hokbody). destruct Hch as (Hfol & Hchain).
+      cbn [flat_map map] in *. rewrite <- app_assoc in HRd.
+      destruct (sprint_head b) as (t0 & r0 & Ep & Ehd & Eel & Elv & Edp).
+      unfold Dst2 in HDb. rewrite Ep in HDb. rewrite Ep in HRd. cbn [app] in HRd.
+      rewrite app_length in Hf. rewrite Ep in Hf. cbn [length] in Hf.
+      destruct f as [|f]; [lia|].
+      assert (Hmb : Forall mm0 (sprint b)) by (apply sok_mm; exact Hokb). rewrite Ep in Hmb. inversion Hmb as [|? ? Hm0 Hmr0]; subst.
+      destruct (Rd_next _ _ _ _ _ HRd Hm0) as (s1 & Hn & HRd1). rewrite env_loop_S, Hn.
+      destruct Hfit as (F1 & F2 & F3 & F4).
+      assert (E1 : (level t0 =? PAR_LEVEL) = false) by (apply Z.eqb_neq; rewrite Elv; exact F1).
+      assert (E2 : (level t0 <? h_level h) = false) by (apply Z.ltb_ge; rewrite Elv; exact F2).
+      rewrite E1, E2.
+      assert (E3 : is_elem t0 && (h_mode (hd_of t0) =? 2) && (h_typ (hd_of t0) =? h_typ h) = false).
+      { rewrite Eel, Ehd. destruct (is_elem (sden b)) eqn:Ee; [|reflexivity]. cbn [andb].
+        destruct (h_mode (hd_of (sden b)) =? 2) eqn:Em; [|reflexivity]. cbn [andb].
+        apply Z.eqb_eq in Em. apply Z.eqb_neq. apply F3; [reflexivity|exact Em]. }
+      rewrite E3.
+      assert (Hr' : Forall mm0 (flat_map sprint body ++ Node he [] :: r)).
+      { apply Forall_app. split; [eapply oks2_mm; exact Hokbody|constructor; [exact Hmm|exact Hr]]. }
+      destruct (HDb Hokb f s1 (flat_map sprint body ++ Node he [] :: r) log ev) as (s2 & log1 & Hd & HRd2 & Hl1);
+        [cbn [length]; lia|exact Hlog|exact Hr'| |exact HRd1|].
+      { eapply behind_chain; [exact Hfol|]. simpl. lia. }
+      rewrite Hd.
+      assert (E4 : (DOC_LEVEL <? h_level h) && (depth (sden b) <? h_depth h) = false).
+      { destruct (DOC_LEVEL <? h_level h) eqn:Ed; [|reflexivity]. cbn [andb]. apply Z.ltb_lt in Ed. apply Z.ltb_ge. apply F4. exact Ed. }
+      rewrite E4.
+      destruct (IHb HDbody Hokbody Hchain f (ch0 ++ [sden b]) s2 r log1 ev) as (s3 & log2 & Hl & HRd3 & Hl2); [lia|exact Hl1|exact Hr|exact HRd2|].
+      rewrite Hl. eexists. eexists. split; [rewrite <- app_assoc; reflexivity|]. split; eassumption.
+  Qed.
+
+  Lemma nf2_sec_loop h :
+    forall body, Forall Dst2 body -> oks2 sast_ok (fun t => h_level h < level t) body -> chain body (Some (h_level h)) ->
+    forall f ch0 s r log ev, (2 * length (flat_map sprint body) + 1 <= f)%nat -> logok log -> Forall mm0 r ->
+    (match r with [] => True | t :: _ => level t <= h_level h end) ->
+    Rd s (flat_map sprint body ++ r) log ev ->
+    exists s' log', sec_loop subs pn f h ch0 s = Done (ch0 ++ map sden body, s') /\ Rd s' r log' ev /\ logok log'.
+  Proof.
+    induction body as [|b body IHb]; intros HD Hok Hch f ch0 s r log ev Hf Hlog Hr Hbeh HRd.
+    - destruct f as [|f]; [simpl in Hf; lia|]. cbn [flat_map app map] in *. rewrite sec_loop_S.
+      destruct r as [|t r].
+      + rewrite (Rd_nil _ _ _ HRd). eexists. eexists. split; [rewrite app_nil_r; reflexivity|]. split; eassumption.
+      + inversion Hr as [|? ? Hm0 Hr']; subst.
+        destruct (Rd_next _ _ _ _ _ HRd Hm0) as (s1 & Hn & HRd1). rewrite Hn.
+        assert (E : (level t <=? h_level h) = true) by (apply Z.leb_le; exact Hbeh). rewrite E.
+        eexists. eexists. split; [rewrite app_nil_r; reflexivity|]. split; [apply Rd_push; exact HRd1|exact Hlog].
+    - inversion HD as [|? ? HDb HDbody]; subst. destruct Hok as (Hokb & Hfit & Hokbody). destruct Hch as (Hfol & Hchain).
+      cbn [flat_map map] in *. rewrite <- app_assoc in HRd.
+      destruct (sprint_head b) as (t0 & r0 & Ep & Ehd & Eel & Elv & Edp).
+      unfold Dst2 in HDb. rewrite Ep in HDb. rewrite Ep in HRd. cbn [app] in HRd.
+      rewrite app_length in Hf. rewrite Ep in Hf. cbn [length] in Hf.
+      destruct f as [|f]; [lia|].
+      assert (Hmb : Forall mm0 (sprint b)) by (apply sok_mm; exact Hokb). rewrite Ep in Hmb. inversion Hmb as [|? ? Hm0 Hmr0]; subst.
+      destruct (Rd_next _ _ _ _ _ HRd Hm0) as (s1 & Hn & HRd1). rewrite sec_loop_S, Hn.
+      assert (E1 : (level t0 <=? h_level h) = false) by (apply Z.leb_gt; rewrite Elv; exact Hfit).
+      rewrite E1.
+      assert (Hr' : Forall mm0 (flat_map sprint body ++ r)).
+      { apply Forall_app. split; [eapply oks2_mm; exact Hokbody|exact Hr]. }
+      destruct (HDb Hokb f s1 (flat_map sprint body ++ r) log ev) as (s2 & log1 & Hd & HRd2 & Hl1);
+        [cbn [length]; lia|exact Hlog|exact Hr'| |exact HRd1|].
+      { eapply behind_chain; [exact Hfol|]. simpl. exact Hbeh. }
+      rewrite Hd.
+      destruct (IHb HDbody Hokbody Hchain f (ch0 ++ [sden b]) s2 r log1 ev) as (s3 & log2 & Hl & HRd3 & Hl2);
+        [lia|exact Hl1|exact Hr|exact Hbeh|exact HRd2|].
+      rewrite Hl. eexists. eexists. split; [rewrite <- app_assoc; reflexivity|]. split; eassumption.
+  Qed.
+
+  Lemma nf2_digest : forall a, Dst2 a.
+  Proof.
+    induction a as [h s|h pre|h he body IH|h body IH] using sast_ind2; unfold Dst2; intros Hok f s1 r log ev Hf Hlog Hr Hbeh.
+    - cbn [sprint is_elem app sden]. intro HRd. eexists. eexists. split; [reflexivity|]. split; eassumption.
+    - cbn [sprint is_elem app sden]. cbn [sprint length] in Hf. destruct f as [|f]; [lia|]. intro HRd.
+      simpl in Hok. rewrite digest_S_leaf by apply Hok. eexists. eexists. split; [reflexivity|]. split; eassumption.
+    - cbn [sprint is_elem sden]. cbn [sprint length] in Hf. rewrite app_length in Hf. cbn [length] in Hf.
+      cbn [sast_ok] in Hok. destruct Hok as (Hk & Hm & Hfo & Hmm & Hmme & Hme & Hte & Hlp & Hle & Hoks & Hch).
+      destruct f as [|f]; [lia|]. rewrite digest_S_env by exact Hk.
+      destruct f as [|f]; [lia|].
+      assert (Em : (h_mode h =? 2) = false) by (apply Z.eqb_neq; exact Hm). rewrite digest_env_S by exact Em. rewrite Hfo.
+      rewrite <- app_assoc. cbn [app]. intro HRd.
+      destruct (nf2_env_loop h he Hme Hte Hlp Hle Hmme body IH Hoks Hch f [] s1 r log ev) as (s2 & log1 & Hl & HRd2 & Hl1);
+        [lia|exact Hlog|exact Hr|exact HRd|].
+      rewrite Hl. eexists. eexists. split; [reflexivity|]. split; eassumption.
+    - cbn [sprint is_elem sden]. cbn [sprint length] in Hf.
+      cbn [sast_ok] in Hok. destruct Hok as (Hk & Hmm & Hoks & Hch).
+      destruct f as [|f]; [lia|]. rewrite digest_S_sec by exact Hk. intro HRd.
+      destruct (nf2_sec_loop h body IH Hoks Hch f [] s1 r log ev) as (s2 & log1 & Hl & HRd2 & Hl1);
+        [lia|exact Hlog|exact Hr|exact Hbeh|exact HRd|].
+      rewrite Hl. cbn [app]. unfold do_paragraphs.
+      destruct HRd2 as (Hi2 & Hm2 & Hlg2 & He2). rewrite Hm2.
+      destruct (paragraphs subs pn false true h (map sden body)) as [kept dr] eqn:Ep. cbn [fst].
+      eexists. eexists. split; [reflexivity|]. split.
+      + apply Rd_logds; assumption.
+      + apply logok_logds. rewrite Hlg2. exact Hl1.
+  Qed.
+
+  Lemma nf2_top : forall l, oks2 sast_ok (fun _ => True) l -> chain l None ->
+    forall f out s log ev, (2 * length (flat_map sprint l) + 1 <= f)%nat -> logok log -> Rd s (flat_map sprint l) log ev ->
+    exists s' log', parse_top subs pn f out s = Done (out ++ map sden l, s') /\ Rd s' [] log' ev /\ logok log'.
+  Proof.
+    induction l as [|b l IH]; intros Hok Hch f out s log ev Hf Hlog HRd.
+    - destruct f as [|f]; [lia|]. cbn [flat_map map] in *. rewrite parse_top_S, (Rd_nil _ _ _ HRd).
+      eexists. eexists. split; [rewrite app_nil_r; reflexivity|]. split; eassumption.
+    - destruct Hok as (Hokb & _ & Hokl). destruct Hch as (Hfol & Hchain). cbn [flat_map map] in *.
+      destruct (sprint_head b) as (t0 & r0 & Ep & Ehd & Eel & Elv & Edp).
+      pose proof (nf2_digest b) as HDb. unfold Dst2 in HDb. rewrite Ep in HDb. rewrite Ep in HRd. cbn [app] in HRd.
+      rewrite app_length, Ep in Hf. cbn [length] in Hf.
+      destruct f as [|f]; [lia|].
+      assert (Hmb : Forall mm0 (sprint b)) by (apply sok_mm; exact Hokb). rewrite Ep in Hmb. inversion Hmb as [|? ? Hm0 Hmr0]; subst.
+      destruct (Rd_next _ _ _ _ _ HRd Hm0) as (s1 & Hn & HRd1). rewrite parse_top_S, Hn.
+      destruct (HDb Hokb f s1 (flat_map sprint l) log ev) as (s2 & log1 & Hd & HRd2 & Hl1);
+        [cbn [length]; lia|exact Hlog|eapply oks2_mm; exact Hokl| |exact HRd1|].
+      { pose proof (behind_chain b l [] None Hfol eq_refl) as Hb. rewrite app_nil_r in Hb. exact Hb. }
+      rewrite Hd.
+      destruct (IH Hokl Hchain f (out ++ [sden b]) s2 log1 ev) as (s3 & log2 & Hl & HRd3 & Hl2); [lia|exact Hl1|exact HRd2|].
+      rewrite Hl. eexists. eexists. split; [rewrite <- app_assoc; reflexivity|]. split; eassumption.
+  Qed.
+
+  (* documents with sectioning: parsing the printed form gives back the syntax trees, every sectioning node holding
+     Macro.paragraphs of exactly what stands between it and the next item of a level not above its own *)
+  Theorem nf2_parse : forall l, oks2 sast_ok (fun _ => True) l -> chain l None ->
+    exists s', parse_doc subs pn (flat_map sprint l) = Done (map sden l, s') /\
+               s_buf s' = [] /\ s_rest s' = [] /\ s_ev s' = [] /\
+               Forall (fun e => fst e = R_END \/ fst e = R_EMPTYPAR) (s_log s').
+  Proof.
+    intros l Hok Hch. unfold parse_doc.
+    destruct (nf2_top l Hok Hch (fuel_for (flat_map sprint l)) [] (init_st (flat_map sprint l)) [] []) as (s' & log' & H & HRd & Hl);
+      [unfold fuel_for; lia|constructor|repeat split|].
+    rewrite H. exists s'. split; [reflexivity|]. destruct HRd as (Hi & Hm & Hlg & He).
+    apply app_eq_nil in Hi. destruct Hi as [Hb Hr]. repeat split; try assumption. rewrite Hlg. exact Hl.
+  Qed.
+End NF2.
+
+(* \documentclass{article}\begin{document}\section{Wa}b\par c\begin{quote}d\end{quote}\subsection{Wb}e\section{Wc}f\end{document} *)
+Definition ex_sec (name lvl : Z) (args : list (list Z)) (body : list sast) : sast := SSec (ex_head KSec name lvl 2 0 name args) body.
+Definition ex_nf2 : list sast :=
+  [ SLeaf (ex_head KLeaf 1 CHAR_LEVEL 1 0 20 []) [];
+    SEnv (ex_head KEnv 2 DOC_LEVEL 2 1 1 []) (ex_head KEnv 2 DOC_LEVEL 1 2 1 [])
+      [ ex_sec 3 1 [[87; 97]]
+          [ SText (hd_of (ex_txt 98 2)) [98]; SLeaf (hd_of (ex_par 2)) []; SText (hd_of (ex_txt 99 2)) [99];
+            SEnv (ex_head KEnv 11 201 3 1 11 []) (ex_head KEnv 11 201 2 2 11 []) [ SText (hd_of (ex_txt 100 3)) [100] ];
+            ex_sec 10 2 [[87; 98]] [ SText (hd_of (ex_txt 101 2)) [101] ] ];
+        ex_sec 3 1 [[87; 99]] [ SText (hd_of (ex_txt 102 2)) [102] ] ] ].
+
+Lemma ex_nf2_ok : oks2 ex_subs 0 (sast_ok ex_subs 0) (fun _ => True) ex_nf2 /\ chain ex_subs 0 ex_nf2 None.
+Proof.
+  cbn. unfold fits, level, depth_of, ex_head, ex_txt, ex_par, hd_of, is_elem, DOC_LEVEL, PAR_LEVEL, CHAR_LEVEL; cbn.
+  repeat split; auto; try discriminate; try (intros; discriminate); try (intros; lia); try lia.
+Qed.
